@@ -121,20 +121,25 @@ class Driver:
 
     def op_eval(self, cid: str, theta: dict, X, op: str, **kw) -> list:
         q = {"cmd": "op_eval", "id": cid, "theta": self._theta(theta), "X": self._rows(X), "op": op}
+        kw = dict(kw)
         if "vals" in kw:
-            kw = dict(kw)
             kw["vals"] = [enc_num(v, self.mode) for v in kw["vals"]]
+        if "quad" in kw:
+            kw["quad"] = self._quad(kw["quad"])
         q.update(kw)
         return dec_nested(self.call(q)["ok"], self.mode)
 
-    def spec_integrate(self, cid: str, theta: dict, X, zs) -> list:
+    def _quad(self, quad):
+        return [[enc_num(p, self.mode), enc_num(w, self.mode)] for p, w in (quad or [])]
+
+    def spec_integrate(self, cid: str, theta: dict, X, zs, quad=None) -> list:
         r = self.call({"cmd": "spec_integrate", "id": cid, "theta": self._theta(theta),
-                       "X": self._rows(X), "vars": list(zs)})
+                       "X": self._rows(X), "vars": list(zs), "quad": self._quad(quad)})
         return dec_nested(r["ok"], self.mode)
 
-    def masked_eval(self, cid: str, theta: dict, X, masks) -> list:
+    def masked_eval(self, cid: str, theta: dict, X, masks, quad=None) -> list:
         r = self.call({"cmd": "masked_eval", "id": cid, "theta": self._theta(theta),
-                       "X": self._rows(X), "masks": [list(m) for m in masks]})
+                       "X": self._rows(X), "masks": [list(m) for m in masks], "quad": self._quad(quad)})
         return dec_nested(r["ok"], self.mode)
 
     def param(self, expr: dict, theta: dict):
